@@ -265,6 +265,8 @@ func TestC13_FixedShapes(t *testing.T) {
 		{"none", ""}, {"text-lf", "a\nb\n"}, {"text-crlf", "a\r\nb\r\n"}, {"string", "{{ \"s\n\nt\" }}"}, {"comment", "{{-- c\n\n\nc --}}"},
 		{"multi-line-block", "{{\n1\n+\n2\n}}"}, {"multi-line-header", "@if(\ntrue\n)\nx\n@end"}, {"escape", "\\{{ x }}\n\\@if(y)\n"}, {"assign-string", "{{ v = 'q\nq' }}"},
 		{"each-header", "@each(e in [\n1,\n2\n]){{ e }}\n@end"}, {"non-ascii", "日本\né\n"},
+		// (a component use cannot render through the string API: only with faults reported before rendering)
+		{"component-then-comment", "@component(\"c\")\n{{-- c --}}\na\nb\n"}, {"component-blank-comment-lines", "@component(\"c\", {})  {{-- c\nc --}}\n\n"}, {"component-comment-slot", "@component(\"c\")\n{{-- c --}}\n@slot x\n@end\n@end\n"},
 		// long text: more than 1 KiB, 4 KiB, 64 KiB in one run (starting with a line end, right after a
 		// block), one line of 70 000 bytes, thousands of lines
 		{"long-run-after-block", "{{ 1 }}\n" + strings.Repeat("abcdefghi\n", 150)}, {"long-run-4k", "\n" + strings.Repeat("0123456 89abcde\n", 300) + "<p>"},
@@ -277,6 +279,9 @@ func TestC13_FixedShapes(t *testing.T) {
 			for _, lead := range []string{"", "lead ", "\n", "\t "} {
 				idx++
 				if !harness.Mine(idx) {
+					continue
+				}
+				if strings.HasPrefix(b.name, "component-") && !ff.parseTime {
 					continue
 				}
 				src := b.src + lead + ff.src + "\ntail"
@@ -401,13 +406,20 @@ func c13Tree(c *harness.Check, cs lineCase) string {
 
 func TestC13_Trees(t *testing.T) {
 	c := harness.New(t, "C13", "trees",
-		"template directories with a page, a layout and a component; multi-line filler before one fault: run-time faults in the page (top level, inside an @insert block, inside a slot body, inside a component argument, after a custom function has rendered another template of the directory) must report the page's absolute path and the construct's line; parse-time faults in the page, in the layout file and in the component file must make NewTemplate fail naming that file's absolute path and line; an @insert naming no reserve and an unknown @component must name the page and the line of that directive; an unknown @component written in the component file or in the layout file the page uses must name that file (page names that sort before and after those files). Non-trivial: expected line > 1. Distinct by hash of the tree.")
+		"template directories with a page, a layout and a component; multi-line filler before one fault (text, comments, strings, blocks, and in pages component uses followed by blanks, comments and further lines, with comments before and between their slots): run-time faults in the page (top level, inside an @insert block, inside a slot body, inside a component argument, after a custom function has rendered another template of the directory) must report the page's absolute path and the construct's line; parse-time faults in the page, in the layout file and in the component file must make NewTemplate fail naming that file's absolute path and line; an @insert naming no reserve and an unknown @component must name the page and the line of that directive; an unknown @component written in the component file or in the layout file the page uses must name that file (page names that sort before and after those files). Non-trivial: expected line > 1. Distinct by hash of the tree.")
 	defer c.Finish()
 	runRapid(t, c, 1500, 15000, func(rt *rapid.T) {
+		inPage := false
 		fill := func() string {
 			var b strings.Builder
 			for i := rapid.IntRange(0, 3).Draw(rt, "nfill"); i > 0; i-- {
-				b.WriteString(rapid.SampledFrom([]string{"text\n", "{{-- c\nc --}}", "{{ \"s\nt\" }}\n", "\r\n", "{{\n1\n}}", "<p>é</p>\n", "\\@if(x)\n"}).Draw(rt, "fill"))
+				pieces := []string{"text\n", "{{-- c\nc --}}", "{{ \"s\nt\" }}\n", "\r\n", "{{\n1\n}}", "<p>é</p>\n", "\\@if(x)\n"}
+				if inPage {
+					// a component use followed by blanks, a comment and more lines; a comment before and between slots
+					pieces = append(pieces, "@component(\"aside\")\n{{-- c --}}\n<p>t</p>\n", "@component(\"aside\") {{-- c\nc --}}\n", "@component(\"aside\", {})\n\n\t{{-- c --}}text\nmore\n",
+						"@component(\"aside\")\n{{-- c --}}\n@slot x\n@end\n{{-- d\n --}}\n@end\n", "@component(\"aside\")\n \n<i>i</i>\n")
+				}
+				b.WriteString(rapid.SampledFrom(pieces).Draw(rt, "fill"))
 			}
 			return b.String()
 		}
@@ -415,6 +427,7 @@ func TestC13_Trees(t *testing.T) {
 		ff := forms[rapid.IntRange(0, len(forms)-1).Draw(rt, "faultForm")]
 		layout := fill() + "<html>@reserve(\"title\")\n<body>@reserve(\"content\")</body>" + fill() + "</html>\n"
 		comp := fill() + "<div>{{ arg }}@slot(\"s\")" + fill() + "@slot</div>\n"
+		inPage = true
 		page := "@use(\"lay\")\n" + fill() + "@insert(\"title\", \"T\")\n"
 		scenario := rapid.SampledFrom([]string{"page-top", "page-insert-block", "page-slot-body", "page-component-arg", "layout-parse", "component-parse", "page-parse", "undefined-insert", "unknown-component", "nolayout-page", "page-after-nested-render", "unknown-component-in-component-file", "unknown-component-in-layout-file"}).Draw(rt, "scenario")
 		// the page's name may itself end in the extension (file report.tw.tw), or sit in a directory
@@ -468,11 +481,13 @@ func TestC13_Trees(t *testing.T) {
 			// the page variable pv occurs on earlier lines too
 			page += "@insert(\"content\")\n{{ pv = 2 }}{{ pv }}\n" + fill() + "@component(\"comp\", {arg: " + expr + " + pv})\n@end\n"
 		case "layout-parse":
+			inPage = false
 			ff = pickParseFault(rt, forms)
 			cs.Fault, cs.AtLoad, cs.WantFile = ff.kind, true, "t/lay.tw"
 			layout = fill() + "<html>@reserve(\"title\")\n" + fill() + ff.src + "\n<body>@reserve(\"content\")</body></html>\n"
 			page += "@insert(\"content\")c@end\n"
 		case "component-parse":
+			inPage = false
 			ff = pickParseFault(rt, forms)
 			cs.Fault, cs.AtLoad, cs.WantFile = ff.kind, true, "t/comp.tw"
 			comp = fill() + "<div>{{ arg }}\n" + fill() + ff.src + "\n@slot(\"s\")@slot</div>\n"
@@ -483,10 +498,12 @@ func TestC13_Trees(t *testing.T) {
 			page += "@insert(\"content\")\n" + fill() + ff.src + "\n@end\n"
 		case "unknown-component-in-component-file":
 			// the component file the page uses names a component that does not exist: the fault is in that file
+			inPage = false
 			cs.Fault, cs.AtLoad, cs.WantFile = "unknown-component", true, "t/comp.tw"
 			comp = fill() + "<div>{{ arg }}\n" + fill() + "@component(\"zzFault\");\n@slot(\"s\")@slot</div>\n"
 			page += "@insert(\"content\")" + compUse("1", "x") + "@end\n"
 		case "unknown-component-in-layout-file":
+			inPage = false
 			cs.Fault, cs.AtLoad, cs.WantFile = "unknown-component", true, "t/lay.tw"
 			layout = fill() + "<html>@reserve(\"title\")\n" + fill() + "@component(\"zzFault\");\n<body>@reserve(\"content\")</body></html>\n"
 			page += "@insert(\"content\")c@end\n"
@@ -507,7 +524,7 @@ func TestC13_Trees(t *testing.T) {
 		if cs.WantLine < 1 {
 			return
 		}
-		cs.Tree = tree.Tree{"t/" + pageName + ".tw": {Content: page}, "t/lay.tw": {Content: layout}, "t/comp.tw": {Content: comp}, "t/other.tw": {Content: "<other>\n{{ 1 + 1 }}\n</other>"}}
+		cs.Tree = tree.Tree{"t/" + pageName + ".tw": {Content: page}, "t/lay.tw": {Content: layout}, "t/comp.tw": {Content: comp}, "t/other.tw": {Content: "<other>\n{{ 1 + 1 }}\n</other>"}, "t/aside.tw": {Content: "<aside>\n@slot\n</aside>"}}
 		nt := cs.WantLine > 1
 		c.Case(nt, mustJSON(cs.Tree), "scenario:"+scenario, "fault:"+cs.Fault)
 		if nt {
